@@ -157,6 +157,15 @@ class GhostBackend:
                 if len(Dslc) == len(Dn) == len(Drsh):
                     ok.append(And(*[And(0 <= x[0], x[1] <= d, x[1] - x[0] == r) for x, d, r in zip(Dslc, Dn, Drsh)]))
         self._req(k, 'rows-shape-valid', And(*ok))
+        # two source blocks merged into the same new block occupy disjoint boxes (the merge is injective)
+        dis = []
+        for (_, rows) in groups:
+            for i in range(len(rows)):
+                for j in range(i + 1, len(rows)):
+                    bi, bj = rows[i][3], rows[j][3]
+                    if len(bi) == len(bj):
+                        dis.append(Or(*[Or(x[1] <= y[0], y[1] <= x[0]) for x, y in zip(bi, bj)]) if len(bi) else False)
+        self._req(k, 'merged-sub-blocks-do-not-overlap', And(*dis))
         self._req(k, 'new-blocks-tile-output', _tiles([m[2] for m in meta_new], Dsize))
         return self._rec(k, Dsize, (data,), (order, meta_new, meta_mrg, Dsize))
 
